@@ -1944,6 +1944,13 @@ class UserSpaceImpl(*_user_space_impl_base):
         self.own_refs[name].on_delete()
         self.own_refs.del_item(name)
 
+    def on_delete(self):
+        # ItemSpaces created from this space, here and in other spaces
+        # that use it as their base, must not outlive it.
+        self.clear_subs_rootitems()
+        self.del_all_itemspaces()
+        super().on_delete()
+
     def on_rename(self, name):
         self.model.clear_obj(self)
         self.clear_all_cells(clear_input=True, recursive=True, del_items=True)
